@@ -62,6 +62,9 @@ def srcHandle (bs : Bytes) (impl : String) : String :=
   let model := s!"parse={clsOf (parsePackage bs)} cur={clsOf (Io.parseChunked bs [])} open={clsOf (Io.parseChunked bs (chunks n 8192))} " ++
     s!"opens={clsOf (Io.parseChunked bs (chunks n 8192))} bufr={clsOf (Io.parseChunked bs (chunks n 16))} mopen={clsOf (Io.parseMetadataC ⟨bs, chunks n 8192⟩)}"
   let toks := (impl.splitOn " ").filter (· ≠ "")
+  -- the child's memory report (`mem=… pmem=…`, appended to every child observation) is not predicted here: copied
+  let memTail := (toks.filter fun t => t.startsWith "mem=" || t.startsWith "pmem=").foldl (fun acc t => acc ++ " " ++ t) ""
+  let model := model ++ memTail
   let bad := toks.filter fun t => t == "abort" || t.startsWith "alloc-excess" || t.endsWith "=panic"
   let pk := toks.filter fun t => ["parse=", "cur=", "open=", "opens=", "bufr="].any fun pre => t.startsWith pre
   let classes := (pk.map fun t => ((t.splitOn "=").getD 1 "")).eraseDups
